@@ -48,7 +48,7 @@ EXPECTED_PROBES = ["cls_Dataset", "cls_Dataset2d", "cls_Dataset3d", "cls_Dataset
                    "ndim_changed_by_getitem", "getitem_list", "getitem_ellipsis", "getitem_negative_step",
                    "getitem_partial", "length1_axis", "rejected_setter", "rejected_shape_arg",
                    "inplace_vs_copy_compared", "pairs_steered", "complex_dtype", "int_dtype",
-                   "axis_ge_16", "layout_F", "layout_strided", "layout_readonly", "layout_negstride"]
+                   "axis_ge_16", "getitem_numpy_int_slice_step", "layout_F", "layout_strided", "layout_readonly", "layout_negstride"]
 
 _D = {}
 _registry0 = None
@@ -253,6 +253,10 @@ def _resolve_index(spec, shape):
             sl = slice(start, stop, step)
             if len(range(ln)[sl]) == 0:
                 sl = slice(None, None, step)
+            if (s["a"] + s["b"]) % 4 == 0:
+                # slice members computed with NumPy (np.int64 / np.intp), as in ds[::n // 3]
+                ty = np.int64 if s["a"] % 2 else np.intp
+                sl = slice(*(None if q is None else ty(q) for q in (sl.start, sl.stop, sl.step)))
             items.append(sl)
         else:
             items.append(slice(None))
@@ -307,7 +311,7 @@ def _renorm(it, ln):
     if isinstance(it, list):
         return [(x % ln) - (ln if x < 0 else 0) for x in it]
     if isinstance(it, slice):
-        if len(range(ln)[it]) == 0:
+        if len(range(ln)[slice(*(None if q is None else int(q) for q in (it.start, it.stop, it.step)))]) == 0:
             return slice(None, None, it.step)
         return it
     return it
@@ -658,6 +662,9 @@ def run(plan):
                     bump(probes, "getitem_partial")
                 if any(isinstance(x, slice) and (x.step or 1) < 0 for x in full):
                     bump(probes, "getitem_negative_step")
+                if any(isinstance(x, slice) and isinstance(x.step, np.integer) and x.step != 1
+                       for x in full):
+                    bump(probes, "getitem_numpy_int_slice_step")
                 before = snap(ds)
                 want_arr = ds.array[index]
                 kept = [q for q, x in enumerate(full) if not isinstance(x, (int, np.integer))]
